@@ -23,7 +23,7 @@ I64 = lambda n: z3.BitVec(n, 64)
 
 
 def T():
-    return int(os.environ.get('VF_QTIMEOUT', '90'))
+    return int(os.environ.get('VF_QTIMEOUT', '240'))
 
 
 def cvc5_unsat(conds, timeout_s):
